@@ -98,6 +98,9 @@ func (fr *Frame) call(in ssa.Instruction, c *ssa.CallCommon, st *State, g string
 		fc.assumes["trusted model: math.Abs(x) == |x| (exact on finite float64)"] = true
 		return []SV{{t: fc.define(fr.prefix+"fabs", "Real", ite(app(">=", args[0].t, "0.0"), args[0].t, app("-", args[0].t))), typ: sig.Results().At(0).Type()}}
 	}
+	if res, ok := fr.mathPowConst(key, c); ok && spec == nil { // ext_float.go: math.Pow of constants
+		return res
+	}
 	if key == badgerPkgPath+".DB).Update" || key == badgerPkgPath+".DB).View" {
 		if res, ok := fr.badgerRunModel(key, c, st, g, pos); ok {
 			return res
@@ -152,8 +155,13 @@ func (fr *Frame) call(in ssa.Instruction, c *ssa.CallCommon, st *State, g string
 		fr.assumeWF(res, st, g)
 		return res
 	}
-	fc.warn("call to %s without contract at %s: havoc everything", key, fc.eng.pos(pos))
-	fc.assumes["unspecified external call "+key+" (havoc)"] = true
+	if strings.HasSuffix(key, ".init") && len(c.Args) == 0 {
+		// initializer of an imported package, called at the start of a package initializer: havoc everything, one summary line
+		fc.assumes["package initializers of dependencies: unknown effects (everything havocked)"] = true
+	} else {
+		fc.warn("call to %s without contract at %s: havoc everything", key, fc.eng.pos(pos))
+		fc.assumes["unspecified external call "+key+" (havoc)"] = true
+	}
 	fc.noteWriteAll()
 	fc.havocComps(st, nil, true)
 	res := fr.resultSVs(sig, fr.prefix+"x", st, g)
@@ -164,6 +172,9 @@ func (fr *Frame) call(in ssa.Instruction, c *ssa.CallCommon, st *State, g string
 func (fc *FnCtx) canInline(fr *Frame, callee *ssa.Function, spec *FuncSpec) bool {
 	if spec != nil && spec.Inline {
 		return fr.depth < 8
+	}
+	if callee.Synthetic == "package initializer" {
+		return false // another package's initializer (called from a package initializer under contract): summarised, never inlined
 	}
 	if fr.depth >= 4 {
 		return false
@@ -272,6 +283,10 @@ func (fr *Frame) applySpecClosure(spec *FuncSpec, key string, sig *types.Signatu
 			if i < len(rec.bindings) {
 				if pt, ok := fv.Type().Underlying().(*types.Pointer); ok {
 					env.vars[fv.Name()] = SV{t: fc.load(cur, rec.bindings[i].t, pt.Elem()), typ: pt.Elem()}
+					if env.fvAddr == nil {
+						env.fvAddr = map[string]SV{}
+					}
+					env.fvAddr[fv.Name()] = SV{t: rec.bindings[i].t, typ: pt.Elem()}
 				}
 			}
 		}
@@ -289,6 +304,8 @@ func (fr *Frame) applySpecClosure(spec *FuncSpec, key string, sig *types.Signatu
 		}
 		if fr.trustsPre(key) {
 			fc.assumes["precondition of "+key+" assumed at its call sites in "+funcKey(fr.fn)+" (trustpre): "+cl.Text] = true
+		} else if preProvedByOtherCheck(cl, fc) { // ext_propfilter.go
+			fc.assumes["precondition of "+key+" at its call sites in "+funcKey(fc.root)+" is an obligation of check "+strings.Join(cl.Props, ",")+", not of this run: "+cl.Text] = true
 		} else {
 			fc.oblige(fr, "pre", key+":"+label, g, t, pos, cl.Text, fr.props())
 		}
@@ -305,11 +322,15 @@ func (fr *Frame) applySpecClosure(spec *FuncSpec, key string, sig *types.Signatu
 		} else if ob, prop := fr.panicPropagation(t); prop {
 			// caller documents its own panics: the callee's panic must fall under them (ext_panicprop.go)
 			fc.oblige(fr, "panic-spec", fmt.Sprintf("%s:%d", key, i), g, ob, pos, "callee panics when "+cl.Text+": only under the caller's documented panic condition", fr.props())
+		} else if np := fr.rootNoPanic(); np != "" {
+			// ext_nopanic.go: the caller propagates the callee's documented panic, except under its own `nopanic when` condition
+			fc.oblige(fr, "nopanic", fmt.Sprintf("%s:%d", key, i), g, implies(np, not(t)), pos, "under the `nopanic when` condition the callee does not panic: !("+cl.Text+")", fr.props())
 		} else {
 			fc.oblige(fr, "pre", fmt.Sprintf("%s:nopanic%d", key, i), g, not(t), pos, "callee panics when "+cl.Text, fr.props())
 		}
 		fc.assume(g, not(t))
 	}
+	fr.calleeNoPanic(spec, key, env, g, pos) // ext_nopanic.go
 	old := st.clone()
 	// frame
 	if !spec.HasMod && !spec.Trusted && !spec.Assume {
@@ -370,6 +391,10 @@ func (fr *Frame) applySpecClosure(spec *FuncSpec, key string, sig *types.Signatu
 				fc.setComp(st, mh, hs, app("store", hh, v.t, nh))
 				fc.setComp(st, mv, vs, app("store", vv, v.t, nv))
 				fc.setComp(st, "ML", "(Array Ptr Int)", app("store", ml, v.t, nl))
+				if m.DelOnly {
+					// m[-]: the new key set is a subset of the old one, surviving entries keep their values, the length does not grow
+					fc.assume(g, deleteOnlyCond(fc.tc.sortOf(mt.Key()), fc.tc.wf("dk", mt.Key(), ""), app("select", hh, v.t), app("select", vv, v.t), nh, nv, app("select", ml, v.t), nl))
+				}
 				continue
 			}
 			sl, ok := types.Unalias(v.typ).Underlying().(*types.Slice)
@@ -603,6 +628,7 @@ func (fr *Frame) builtin(in ssa.Instruction, b *ssa.Builtin, c *ssa.CallCommon, 
 		case *types.Map:
 			l := fc.define(fr.prefix+"maplen", "Int", ite(eq(a.t, nilPtr), "0", app("select", fc.comp(st, "ML", "(Array Ptr Int)"), a.t)))
 			fc.assume("true", app(">=", l, "0"))
+			fr.extMapLenEmpty(u, a.t, l, st) // ext_mapiter.go: a map of length 0 has no entry
 			fc.mapLenWitness(st, u, a.t, l) // len(m) > 0 ==> m has some key (ext_c34.go)
 			return []SV{{t: l, typ: intT}}
 		}
@@ -671,6 +697,9 @@ func (fr *Frame) appendBuiltin(c *ssa.CallCommon, args []SV, st *State, g string
 		addLen = "0"
 	}
 	newLen := fc.define(fr.prefix+"applen", "Int", plus(slen(s.t), addLen))
+	// the result of an append that returns is a slice, so its length is an int (the runtime panics with "len out of range" otherwise; the
+	// operand slices exist simultaneously, so for elements of non-zero size the sum of their lengths cannot reach 2^63 in the first place)
+	fc.assume(g, app("<", newLen, "9223372036854775808"))
 	// result: either in place (capacity suffices) or a fresh block; Go decides by capacity
 	inPlace := app("<=", newLen, scap(s.t))
 	p := fc.alloc(st)
@@ -689,8 +718,21 @@ func (fr *Frame) appendBuiltin(c *ssa.CallCommon, args []SV, st *State, g string
 				fc.emit(fmt.Sprintf("(assert (forall ((p Ptr)) (! (= (select %[1]s p) (ite (and ((_ is Elem) p) (= (epar p) (sarr %[2]s)) (<= (soff %[2]s) (eix p)) (< (eix p) (+ (soff %[2]s) %[3]s))) (ite (< (- (eix p) (soff %[2]s)) %[4]s) (select %[5]s (Elem %[6]s (+ %[7]s (- (eix p) (soff %[2]s))))) (select %[5]s (Elem %[8]s (+ %[9]s (- (- (eix p) (soff %[2]s)) %[4]s))))) (select %[5]s p))) :pattern ((select %[1]s p)))))",
 					h, res, newLen, slen(s.t), prev, sarr(s.t), soff(s.t), sarr(more.t), soff(more.t)))
 			}
+			if tc.sortOf(more.typ) == "Slice" {
+				// consequences of the axiom above in the index form spec reads use (element j of a slice is Elem(arr, idx(off, j))):
+				// old elements are kept, appended ones follow; plus the ground instance for the common one-element append
+				fc.emit(fmt.Sprintf("(assert (forall ((j Int)) (! (=> (and (<= 0 j) (< j %[2]s)) (= (select %[1]s (Elem (sarr %[3]s) %[4]s)) (select %[5]s (Elem %[6]s %[7]s)))) :pattern ((select %[1]s (Elem (sarr %[3]s) %[4]s))))))",
+					h, slen(s.t), res, idx("(soff "+res+")", "j"), prev, sarr(s.t), idx(soff(s.t), "j")))
+				fc.emit(fmt.Sprintf("(assert (forall ((j Int)) (! (=> (and (<= %[2]s j) (< j %[8]s)) (= (select %[1]s (Elem (sarr %[3]s) %[4]s)) (select %[5]s (Elem %[6]s %[7]s)))) :pattern ((select %[1]s (Elem (sarr %[3]s) %[4]s))))))",
+					h, slen(s.t), res, idx("(soff "+res+")", "j"), prev, sarr(more.t), idx(soff(more.t), "(- j "+slen(s.t)+")"), newLen))
+				fc.emit(fmt.Sprintf("(assert (=> (= %s 1) (= (select %s (Elem (sarr %s) %s)) (select %s (Elem %s %s)))))",
+					addLen, h, res, idx("(soff "+res+")", slen(s.t)), prev, sarr(more.t), idx(soff(more.t), "0")))
+			}
 			fc.noteWrite(k)
 			st.heap[k] = h
+			return SV{t: res, typ: c.Args[0].Type()}
+		}
+		if fr.appendStructElems(s, more, len(args) > 1, res, newLen, st, et) { // ext_crypto.go: slice of flat structs
 			return SV{t: res, typ: c.Args[0].Type()}
 		}
 		fc.unsupported("append to slice of " + et.String())
@@ -725,6 +767,12 @@ func (fr *Frame) appendBuiltin(c *ssa.CallCommon, args []SV, st *State, g string
 	}
 	fc.emit(fmt.Sprintf("(assert (forall ((j Int)) (! (=> (and (<= 0 j) (< j %s)) (= (select %s %s) (select %s %s))) :pattern ((select %s %s)))))",
 		slen(s.t), nb, idx(ro, "j"), oldBlk, idx(soff(s.t), "j"), nb, idx(ro, "j")))
+	if fr.rootMode("append-back") {
+		// `mode append-back`: the same fact, also instantiated from reads of the OLD block, so that an element known before the append
+		// (e.g. an existential witness of a loop invariant) is known to be an element of the result
+		fc.emit(fmt.Sprintf("(assert (forall ((j Int)) (! (=> (and (<= 0 j) (< j %s)) (= (select %s %s) (select %s %s))) :pattern ((select %s %s)))))",
+			slen(s.t), nb, idx(ro, "j"), oldBlk, idx(soff(s.t), "j"), oldBlk, idx(soff(s.t), "j")))
+	}
 	fc.emit(fmt.Sprintf("(assert (=> %s (forall ((i Int)) (! (=> (or (< i %s) (>= i (+ %s %s))) (= (select %s i) (select %s i))) :pattern ((select %s i))))))",
 		inPlace, soff(s.t), soff(s.t), newLen, nb, oldBlk, nb))
 	fc.setComp(st, k, srt, app("store", heap, sarr(res), nb))
@@ -781,6 +829,12 @@ func (fr *Frame) copyBuiltin(c *ssa.CallCommon, args []SV, st *State, g string) 
 		// the copied window holds the same byte string as the source window (see builtin seq)
 		fc.eng.declareUF(fc, "bseq", []string{"(Array Int Int)", "Int", "Int"}, "Int")
 		fc.assume("true", eq(app("bseq", nb, soff(dst.t), n), app("bseq", app("select", heap, sarr(src.t)), soff(src.t), n)))
+		// ... and every window of the destination block that is disjoint from the written one holds the byte string it held
+		// before (bseq is a function of the content of the window; added for C13: two copies into the halves of one array)
+		if fc.usesFact("blockframe") { // opt-in (`uses blockframe`), see ext_crypto.go
+			fc.emit(fmt.Sprintf("(assert (forall ((wo Int) (wn Int)) (! (=> (and (>= wn 0) (or (<= (+ wo wn) %s) (>= wo (+ %s %s)))) (= (bseq %s wo wn) (bseq %s wo wn))) :pattern ((bseq %s wo wn)))))",
+				soff(dst.t), soff(dst.t), n, nb, oldBlk, nb))
+		}
 	}
 	if _, used := fc.ufs["kvval"]; used && fc.tc.sortOf(et) == "Int" && tc.sortOf(src.typ) != "Str" {
 		// T-KV: value ids are functions of the content, and copy makes dst[:n] and src[:n] equal byte strings
